@@ -1,0 +1,50 @@
+package ioutil
+
+import "io"
+
+// jsonC1Writer rewrites the C1 control characters U+0080 to U+009F, which encoding/json writes raw, as \u00XX escapes.
+// RFC 8259 allows them unescaped, but stricter tokenizers (including the one the decoders of this module use) reject
+// them. In JSON text these characters can only occur inside strings, where the escape is equivalent.
+type jsonC1Writer struct {
+	w       io.Writer
+	pending bool // a 0xC2 lead byte ended the previous write
+}
+
+// NewJSONC1EscapingWriter wraps w, which receives JSON text in valid UTF-8.
+func NewJSONC1EscapingWriter(w io.Writer) io.Writer {
+	return &jsonC1Writer{w: w}
+}
+
+const hexDigits = "0123456789abcdef"
+
+func (e *jsonC1Writer) Write(p []byte) (int, error) {
+	out := make([]byte, 0, len(p)+8)
+
+	for _, b := range p {
+		if e.pending {
+			e.pending = false
+
+			if 0x80 <= b && b <= 0x9f {
+				out = append(out, '\\', 'u', '0', '0', hexDigits[b>>4], hexDigits[b&0x0f])
+
+				continue
+			}
+
+			out = append(out, 0xc2)
+		}
+
+		if b == 0xc2 {
+			e.pending = true
+
+			continue
+		}
+
+		out = append(out, b)
+	}
+
+	if _, err := e.w.Write(out); err != nil {
+		return 0, err
+	}
+
+	return len(p), nil
+}
